@@ -37,7 +37,8 @@ import numpy as np
 from .. import impl_c08 as I
 from ..core import COQ, STD_AXIOMS_OK, VERIF, Check
 
-OWN = ["C08_coeffs_recovered", "C08_igral_exact_poly", "C08_pint_antiderivative", "C08_pint_substitution",
+OWN = ["C08_coeffs_recovered", "C08_igral_exact_poly", "C08_igral_exact_poly_distinct_nodes",
+       "C08_interpolation_unique", "C08_right_inverse_is_left", "C08_pint_antiderivative", "C08_pint_substitution",
        "C08_coeffs_next_depth_agree", "C08_err_zero_when_coeffs_agree", "C08_poly_estimate_exact_and_done",
        "C08_igral_linear", "C08_igral_width", "C08_shift_is_resampling", "C08_split_coeffs_exact_poly",
        "C08_igral_split_additive", "C08_hypotheses_satisfiable",
@@ -517,6 +518,15 @@ def run(chk: Check) -> int:
         if r["verdict"]:
             record_failure(fam, params, tol, mode, r, "search")
     hist["divergent_family_raised"] = div_seen
+    seq1_total = sum(1 for (fam, _p, _t, mode) in metas if mode == "seq1" and fam != "divergent")
+    seq1_done = hist["mode_done"].get("seq1", 0)
+    seq1_internal = sum(1 for (fam, _p, _t, mode), r in zip(metas, results) if mode == "seq1" and r["status"] == "internal")
+    hist["sequential_internal_errors"] = seq1_internal
+    if seq1_done < 0.6 * seq1_total:
+        # the unchanged tree reaches done() in ~95% of the one-by-one runs and never raises an
+        # internal error there; a search that judges (almost) nothing must not pass
+        chk.broke("vacuity", "fewer than 60% of the one-by-one sequential runs reached done(): the accuracy search is vacuous",
+                  {"sequential_runs": seq1_total, "done": seq1_done, "internal_errors": seq1_internal, "status": hist["status"]})
     chk.log(f"accuracy: {len(tasks)} runs, {ndone} reached done(), {hist['internal_errors_C07']} skipped on C07 internal errors, "
             f"{hist['timeouts']} timeouts, {len(first_fail)} failing signatures")
 
@@ -580,6 +590,8 @@ def run(chk: Check) -> int:
                 m = r["mismatch"]
                 first_fail[sig] = (fam, params, tol, "reference", {"what": m, "kind": "reference", "loops": loops})
     chk.extra["reference_algorithm_4"] = ref
+    if ref["states_compared_literal"] < 3 * len(rtasks):
+        chk.broke("vacuity", "the comparison with tests/algorithm_4.py compared too few states", ref)
     chk.log(f"reference: {ref['members']} members, {ref['states_compared_literal']} states compared, "
             f"{ref['agree_repo_tolerance']} agree (repo tolerance), {ref['agree_rel_1e-12']} to 1e-12")
 
@@ -613,6 +625,8 @@ def run(chk: Check) -> int:
                                               "residual after a downdate")
     if rec_all is not None:
         coq_igral(chk, rec_all, EK, 8 if quick else 24)
+    if kstats["coeffs"] < 100 or kstats["err"] < 100 or kstats["shift"] < 20 or kstats["coeffs_nonfinite"] < 5:
+        chk.broke("vacuity", "the kernel correspondence recorded too few calls", kstats)
     chk.log(f"kernel: {kstats['coeffs']} _calc_coeffs ({kstats['coeffs_nonfinite']} with non-finite values), "
             f"{kstats['igral']} calc_igral, {kstats['err']} calc_err, {kstats['shift']} shifts")
 
